@@ -7,42 +7,53 @@ from hypothesis import strategies as st
 
 from vf import gen_mat
 from vf import oracle_tsp as o
+from vf import fuzz
 from vf.core import Ctx, HarnessError, require, sut
 
-META = {
-    "rule": "objective: n in 1..8 (thorough 12), non-negative flow / distance "
-            "matrices by construction from the classes {0/1, <127, mixed "
-            "magnitude palettes, constant, zero diagonal, one matrix all "
-            "zero and the other with an entry >= 128, up to 10^12, "
-            "'edge' = trivial upper bound within +-3 of 127 / 255 / 32767 / "
-            "65535 / 2^31-1 / 2^32-1}, upper bound always < 10^15, 10 input "
-            "dtype pairs, 1-2 drawn permutations (dtype of the permutation "
-            "space or int64); non-trivial = n >= 3 and both matrices "
-            "non-constant. loader: QAPLIB text of (n, flows, distances) "
-            "wrapped by the line-wrapping generator (one line, one token per "
-            "line, row-wise, fixed width, random cuts; runs of blanks and "
-            "tabs, leading / trailing blanks, blank lines, with / without "
-            "line ends); non-trivial = a line holds numbers of two blocks "
-            "(n|flows|distances) or a matrix row is split over lines. "
-            "reject: the same texts with 1.. trailing numbers removed or "
-            "1..3 surplus numbers on the last data line must raise "
-            "ValueError; distinct = distinct cases",
-    "assumptions": [
-        "reference values are Python big-int double sums; true min / max "
-        "over all n! permutations (n <= 7) by int64 enumeration, exact "
-        "because every value is < 10^15 (vf/oracle_tsp.py)",
-        "bounds are only required to be valid (lb <= value <= ub), not to "
-        "equal the rearrangement bound",
-        "numbers in QAPLIB text are separated by blanks / tabs only"],
-    "shards": [4, 16],
-    "technique": "property-based testing: Hypothesis-generated flow and "
-                 "distance matrices, permutations and line-wrapped QAPLIB "
-                 "texts against a big-integer reference",
-    "level_text": "randomised exploration up to n = 8 (thorough 12) incl. "
-                  "all storage types the instance can select; bounds compared "
-                  "with the exhaustive optimum for n <= 7",
-    "level_note": "trusted: numpy array construction, Python integers",
-}
+META = {'rule': 'objective: n in 1..8 (thorough 12), non-negative flow / distance '
+         'matrices by construction from the classes {0/1, <127, mixed '
+         'magnitude palettes, constant, zero diagonal, one matrix all zero '
+         "and the other with an entry >= 128, up to 10^12, 'edge' = trivial "
+         'upper bound within +-3 of 127 / 255 / 32767 / 65535 / 2^31-1 / '
+         '2^32-1}, upper bound always < 10^15, 10 input dtype pairs, 1-2 '
+         'drawn permutations (dtype of the permutation space or int64); '
+         'non-trivial = n >= 3 and both matrices non-constant. loader: '
+         'QAPLIB text of (n, flows, distances) wrapped by the line-wrapping '
+         'generator (one line, one token per line, row-wise, fixed width, '
+         'random cuts; runs of blanks and tabs, leading / trailing blanks, '
+         'blank lines, with / without line ends); non-trivial = a line holds '
+         'numbers of two blocks (n|flows|distances) or a matrix row is split '
+         'over lines. reject: the same texts with 1.. trailing numbers '
+         'removed or 1..3 surplus numbers on the last data line must raise '
+         "ValueError; distinct = distinct cases Additionally 'fuzz_qaplib': "
+         'coverage-guided fuzzing (atheris/libFuzzer, token-level custom '
+         'mutator, seed corpus on even shards / empty corpus on odd shards) '
+         'of from_qaplib_stream with the oracle inside the target: whenever '
+         'a text is accepted, n, flows and distances must equal the '
+         'independently tokenised number stream; non-trivial fuzz inputs = '
+         'distinct accepted texts.',
+ 'assumptions': ['reference values are Python big-int double sums; true min '
+                 '/ max over all n! permutations (n <= 7) by int64 '
+                 'enumeration, exact because every value is < 10^15 '
+                 '(vf/oracle_tsp.py)',
+                 'bounds are only required to be valid (lb <= value <= ub), '
+                 'not to equal the rearrangement bound',
+                 'numbers in QAPLIB text are separated by blanks / tabs only',
+                 'fuzz targets: inputs the independent oracle cannot '
+                 'interpret and exceptions other than the documented '
+                 "rejection are counted, not reported; libFuzzer's -seed "
+                 'pins a campaign only approximately, the saved input is the '
+                 'reproducible unit'],
+ 'shards': [4, 16],
+ 'technique': 'property-based testing: Hypothesis-generated flow and '
+              'distance matrices, permutations and line-wrapped QAPLIB texts '
+              'against a big-integer reference + coverage-guided fuzzing '
+              '(atheris) of the QAPLIB loader with an independent '
+              'token-stream oracle',
+ 'level_text': 'randomised exploration up to n = 8 (thorough 12) incl. all '
+               'storage types the instance can select; bounds compared with '
+               'the exhaustive optimum for n <= 7',
+ 'level_note': 'trusted: numpy array construction, Python integers'}
 
 
 # ----------------------------------------------------------------------------
@@ -264,6 +275,7 @@ def raise_accept(case: dict, inst: Any) -> None:
 
 SUBS = {"objective": check_objective, "loader": check_loader,
         "reject": check_reject}
+SUBS["fuzz_qaplib"] = fuzz.make_sub("qaplib")
 
 
 def run(ctx: Ctx) -> None:
@@ -274,3 +286,5 @@ def run(ctx: Ctx) -> None:
               quick=600, thorough=16 * 2500)
     ctx.given("reject", reject_cases(max_n), check_reject,
               quick=200, thorough=16 * 800)
+    fuzz.run_target(ctx, "qaplib", quick_runs=120_000,
+                    thorough_runs=16 * 1_000_000)
